@@ -21,6 +21,10 @@ Proof. exact unique_children_run. Qed.
 Theorem C11_unique_wires : forall ops, unique_wires (run ops).
 Proof. exact unique_wires_run. Qed.
 
+(* wire.sinks is exactly the list of in / inout ports of PRIMITIVE blocks attached to the wire, in creation order *)
+Theorem C11_sinks_exact : forall ops, sinks_exact (run ops).
+Proof. exact sinks_exact_run. Qed.
+
 (* ---- the call that would create the conflict raises ------------------------------------------------------ *)
 (* guards: the call names existing objects; for rename/reparent the moved wire is currently registered under its
    own (parent, name) -- false only after an earlier rename/reparent of that wire raised (see the refutations) *)
@@ -102,6 +106,19 @@ Theorem C11_integrity_inout_refuted :
                 forall w, w < nwire (run ops) -> wsource (run ops) w <> None.
 Proof. exact integrity_inout_refuted. Qed.
 
+(* ---- the executable predicates the check evaluates on REAL states are the declarative ones -------------------- *)
+Theorem C11_checked_predicates_exact : forall s,
+  (single_driver_b s = true <-> single_driver s) /\ (unique_children_b s = true <-> unique_children s) /\
+  (unique_wires_b s = true <-> unique_wires s) /\ (sinks_exact_b s = true <-> sinks_exact s).
+Proof. exact checked_predicates_exact. Qed.
+Theorem C11_checked_frames_exact : forall s o s', unique_children s -> unique_wires s ->
+  (children_stay_b s s' = true <-> children_stay s s') /\ (drivers_stay_b s s' = true <-> drivers_stay s s') /\
+  (wires_stay_b s o s' = true <-> wires_stay s o s') /\ (subject_registered_b s o = true <-> subject_registered s o).
+Proof. exact checked_frames_exact. Qed.
+Theorem C11_checked_integrity_exact : forall s h, unique_children s -> h < nobj s ->
+  (undriven_port_b s h = true <-> exists q, visited s h q /\ undriven s q).
+Proof. exact checked_integrity_exact. Qed.
+
 (* ---- non-vacuity of the hypotheses ---------------------------------------------------------------------- *)
 Definition ex_ops : list op :=
   [NewLogic None 0%Z false; NewWire 0 0%Z 8%Z; NewWire 0 1%Z 8%Z; NewLogic (Some 0) 1%Z true; NewLogic (Some 0) 2%Z true;
@@ -129,6 +146,7 @@ Print Assumptions C11_single_driver.
 Print Assumptions C11_at_most_one_driver.
 Print Assumptions C11_unique_children.
 Print Assumptions C11_unique_wires.
+Print Assumptions C11_sinks_exact.
 Print Assumptions C11_conflict_raises.
 Print Assumptions C11_earlier_stays.
 Print Assumptions C11_raise_keeps_earlier.
@@ -142,3 +160,6 @@ Print Assumptions C11_integrity_iff.
 Print Assumptions C11_tree_ok_constructed.
 Print Assumptions C11_integrity_iff_constructed.
 Print Assumptions C11_integrity_inout_refuted.
+Print Assumptions C11_checked_predicates_exact.
+Print Assumptions C11_checked_frames_exact.
+Print Assumptions C11_checked_integrity_exact.
